@@ -557,6 +557,32 @@ pub mod checks {
         });
         let mut rejected = 0u64;
         for (p, r) in parts { rep.merge(p); rejected += r; }
+        if name == "text_cmp" && only.is_none() {
+          // number literals beyond the range of a double (`1e999` parses to an infinite f64): such a literal is greater (less) than every number and
+          // equal to none, and it is not null; a parser that rejects it as out of range is equally fine.  Never: a non-number selected by `==`.
+          let d = json!([null, 0, 1.5, "a", true, [], {}, 1e308, -1e308, {"a": null}, {"a": 1}]);
+          let is_num = |v: &Value| v.is_number();
+          let cases: Vec<(&str, Box<dyn Fn(&Value) -> bool>)> = vec![
+              ("$[?@ == 1e999]", Box::new(|_v: &Value| false)), ("$[?@ == -1e999]", Box::new(|_v: &Value| false)), ("$[?@ != 1e999]", Box::new(|_v: &Value| true)),
+              ("$[?@ < 1e999]", Box::new(move |v: &Value| is_num(v))), ("$[?@ > -1e999]", Box::new(move |v: &Value| is_num(v))), ("$[?@ > 1e999]", Box::new(|_v: &Value| false)),
+              ("$[?@ <= 1e999]", Box::new(move |v: &Value| is_num(v))), ("$[?@ >= 1e999]", Box::new(|_v: &Value| false)),
+              ("$[?@.a == 1e999]", Box::new(|_v: &Value| false)), ("$[?@.a != 1E+999]", Box::new(|_v: &Value| true)), ("$[?1.5e400 == @]", Box::new(|_v: &Value| false)),
+              ("$[?@ == 123456789012345678901234567890e999]", Box::new(|_v: &Value| false)), ("$[?@ < -1.0e999]", Box::new(|_v: &Value| false)),
+          ];
+          for (ti, (t, want)) in cases.iter().enumerate() {
+              rep.evaluations += 1; rep.nontrivial += 1;
+              let w = |extra: Value| json!({"text": t, "doc": d, "qi": 9_000_000 + ti, "di": 0, "detail": extra});
+              match catch_unwind(AssertUnwindSafe(|| js_path(t, &d))) {
+                  Err(_) => rep.fail("text_cmp.no_panic", &[], w(json!("panic"))),
+                  Ok(Err(_)) => {}      // rejected as out of range
+                  Ok(Ok(v)) => {
+                      let got: Vec<usize> = v.iter().map(|r| r.clone().val() as *const Value as usize).collect();
+                      let exp: Vec<usize> = d.as_array().unwrap().iter().filter(|x| want(x)).map(|x| x as *const Value as usize).collect();
+                      if got != exp { rep.fail("text_cmp.members", &["number-literal-beyond-f64-range".to_string()], w(json!({"observed": v.iter().map(|r| r.clone().path()).collect::<Vec<_>>(), "expected_count": exp.len()}))); }
+                  }
+              }
+          }
+        }
         if name == "text_arith" {
           // multi-byte characters at every byte offset of names, shorthand names, string literals and patterns (slicing a query text at a
           // fixed byte offset must never cut a character), and functions with unusual argument counts (the error path formats the AST)
